@@ -9,6 +9,27 @@ use std::collections::BTreeMap;
 use std::sync::atomic::{AtomicUsize, Ordering};
 use std::sync::Arc;
 
+/// a deeply nested, long input: serializing it takes long enough for the serializations of many threads to overlap
+#[derive(Serialize, Clone)]
+enum Nest {
+    Leaf(Vec<u32>),
+    Node(Box<Nest>, u8),
+}
+
+#[derive(Serialize, Clone)]
+struct DeepInput {
+    x: i64,
+    deep: Nest,
+}
+
+fn deep_input(x: i64, depth: usize, leaf: usize) -> DeepInput {
+    let mut n = Nest::Leaf((0..leaf as u32).collect());
+    for i in 0..depth {
+        n = Nest::Node(Box::new(n), i as u8);
+    }
+    DeepInput { x, deep: n }
+}
+
 fn assert_send_sync<T: Send + Sync>() {}
 fn assert_send<T: Send>(_: &T) {}
 
@@ -247,6 +268,46 @@ fn main() {
             runs += 1;
             if let Some(why) = o {
                 mismatches.push(format!("one thread, three interleaved evaluations, impure cacheable function: {}", why));
+            }
+        }
+    }
+    // (4) deep, long inputs serialized by many threads at once (`RuleSet::evaluate(&T)` = serialize, then evaluate):
+    //     whatever the serializer keeps while it works must be per call, not per process
+    {
+        let rs3 = Arc::new(
+            ruleset()
+                .with_rule(Rule::parse("// d0\nx + i1").unwrap())
+                .unwrap()
+                .with_rule(Rule::parse("// d1\nsome(deep)").unwrap())
+                .unwrap()
+                .build(),
+        );
+        let deep: Vec<DeepInput> = (0..4).map(|i| deep_input(i, 40 + 10 * i as usize, 60_000)).collect();
+        let seq3: Vec<String> = deep.iter().map(|i| enc(&rt1.block_on(rs3.evaluate(i)))).collect();
+        for _ in 0..(if quick { 6 } else { 40 }) {
+            let barrier = Arc::new(std::sync::Barrier::new(12));
+            let hs: Vec<_> = (0..12)
+                .map(|t| {
+                    let rs3 = rs3.clone();
+                    let inp = deep[t % deep.len()].clone();
+                    let barrier = barrier.clone();
+                    std::thread::spawn(move || {
+                        let rt = tokio::runtime::Builder::new_current_thread().build().unwrap();
+                        barrier.wait();
+                        (t, enc(&rt.block_on(rs3.evaluate(&inp))))
+                    })
+                })
+                .collect();
+            for h in hs {
+                runs += 1;
+                match h.join() {
+                    Ok((t, o)) => {
+                        if o != seq3[t % deep.len()] {
+                            mismatches.push(format!("12 threads serializing deep inputs at once: input={} got {} want {}", t % deep.len(), o.chars().take(200).collect::<String>(), seq3[t % deep.len()].chars().take(200).collect::<String>()));
+                        }
+                    }
+                    Err(_) => mismatches.push("12 threads serializing deep inputs at once: a thread panicked".to_string()),
+                }
             }
         }
     }
